@@ -21,8 +21,16 @@ def cases(tier, seed):
     for cands, bl in gen.profiles_exhaustive(3, 2, [F(1), F(3, 2)], ties=False, distinct_rankings=False):
         cs.append(("clean", cands, bl))
     for n in (1, 2, 3, 4):
-        for r in gen.rankings(gen.NAMES[:n], ties=True, partial=(n < 4)):
-            cs.append(("expand", gen.NAMES[:n], [(r, F(3, 2))]))
+        for i, r in enumerate(gen.rankings(gen.NAMES[:n], ties=True, partial=(n < 4))):
+            cs.append(("expand", gen.NAMES[:n], [(r, (F(3, 2), F(3, 1000003), F(7, 999983))[i % 3])]))
+    # ballots that list a candidate more than once (as raw cast vote records do)
+    for cands, bl in gen.profiles_exhaustive(3, 1, [F(1), F(5, 3)], ties=False):
+        (r, w), = bl
+        for extra in cands:
+            for pos in range(len(r) + 1):
+                r2 = r[:pos] + (frozenset([extra]),) + r[pos:]
+                if len({next(iter(s)) for s in r2}) < len(r2):
+                    cs.append(("repeat", cands, [(r2, w)]))
     if tier == "thorough":
         rng = random.Random(seed)
         for cands, bl in gen.profiles_random(rng, 3000, ties=True):
@@ -124,6 +132,22 @@ def check_case(case):
                 viol("add_missing_cands:candidates", f"{res.candidates}")
         except Exception as e:
             viol(f"add_missing_cands:{type(e).__name__}", repr(e))
+    elif kind == "repeat":
+        (r, w), = bl
+        b = Ballot(ranking=r, weight=w)
+        for rem in [[c] for c in cands] + [list(cands[:2])]:
+            k = oracle.scrub(r, set(rem))
+            out["evals"] += 1
+            for form in ("ballot", "tuple"):
+                try:
+                    res = U.remove_cand(list(rem), b if form == "ballot" else (b,))
+                except Exception as e:
+                    if k:
+                        viol(f"remove_cand[{form},repeated-candidate]:{type(e).__name__}", repr(e), {"removed": rem})
+                    continue
+                got = res.ranking if form == "ballot" else (res[0].ranking if res else ())
+                if (got or ()) != k:
+                    viol(f"remove_cand[{form},repeated-candidate]:result", f"removing {rem} from {[sorted(s) for s in r]} gave {got}, expected {k}", {"removed": rem})
     elif kind == "clean":
         # ballots with repeated candidates (as loaders produce): repeat the first candidate at the end
         bl2 = [(r + (r[0],) if i % 2 == 0 else r, w) for i, (r, w) in enumerate(bl)]
